@@ -94,6 +94,8 @@ def run(chk, facts_dir, tier):
                      "CommittedEvents::Single only under a set id flag and an empty list; a change of the pending id resets the list")
     chk.rule("R4.4", "SIBLING: the disk reader and the cached-block reader of committed events have the same (action, path-condition) table")
     chk.rule("R4.5", "STREAM FILTER: every batch returned by BucketIter::next_batch went through IterConfig::filter_commit")
+    chk.rule("R4.6", "WHO-MAY build CommittedEvents: the variants are constructed only by the two commit-matching readers (R4.3), by the derived Clone/Deserialize impls and by "
+                     "StreamIterConfig::filter_commit, which re-wraps events of a value it received and reads no records itself; anything else hands out events that never passed commit matching")
     chk.not_decided += ["the concurrent reader/writer schedule itself (visibility is decided by the flushed offset, C18)",
                         "byte-level decoding of records"]
 
@@ -252,6 +254,31 @@ def run(chk, facts_dir, tier):
             else:
                 chk.fail("R4.5", b.root or b.path, "batch-writer", "the buffered batch is filled from something other than next_batch's (filtered) result: %s" % show(term)[:100], b, line)
     chk.floor("R4.5", n_ret, 1)
+
+    # ---------------- R4.6
+    allp = Program(facts_dir)
+    ALLOWED = ("sierradb::bucket::segment::reader::BucketSegmentReader::read_committed_events", "sierradb::bucket::segment::reader::SegmentBlock::read_committed_events")
+    n_c = 0
+    for p, b in sorted(allp.bodies.items()):
+        sites = [s for i, j, s in b.assigns() if s["rv"]["k"] == "agg" and s["rv"].get("ak", "").startswith("adt:") and "::CommittedEvents::" in s["rv"]["ak"]]
+        if not sites:
+            continue
+        n_c += len(sites)
+        root = b.root or b.path
+        if root in ALLOWED:
+            chk.ok("R4.6", "built by a commit-matching reader (%d sites)" % len(sites), b.where(sites[0]["line"]))
+        elif "as std::clone::Clone>::clone" in p or "_serde::Deserialize" in p or "_serde::de::Visitor" in p:
+            chk.ok("R4.6", "derived impl", b.where(sites[0]["line"]))
+        elif root.endswith("StreamIterConfig as bucket::iter::IterConfig>::filter_commit"):
+            reads = [t for bi, t in b.calls() if any(x in (b.callee_decl(t) or "") for x in ("read_record", "next_record", "read_block"))]
+            if reads:
+                chk.fail("R4.6", root, "filter-reads-records", "filter_commit reads records itself; what it wraps no longer comes from a committed value", b, reads[0]["line"])
+            else:
+                chk.ok("R4.6", "filter_commit re-wraps the events of its argument", b.where(sites[0]["line"]))
+        else:
+            chk.fail("R4.6", root, "constructs-committed-events", "CommittedEvents::%s is built outside the commit-matching readers: these events did not pass the commit/flag test "
+                     "(events of a transaction without a commit record can reach readers)" % sites[0]["rv"]["ak"].rsplit("::", 1)[-1], b, sites[0]["line"])
+    chk.floor("R4.6", n_c, 6)
     return {}
 
 
